@@ -229,9 +229,20 @@ func runC05(ctx Ctx) int {
 	var items []item
 	c05Cfg.EnumFull(func(cv []int) bool {
 		cfgP := ssoFromVec(c05Cfg, cv)
+		// quick: the message deviations are spent under the configurations with at most one configuration dimension off its default;
+		// the other configurations see every (base, forgery) pair without further deviations. thorough: k under every configuration
+		km, off := k, 0
+		for _, x := range cv {
+			if x != 0 {
+				off++
+			}
+		}
+		if run.Tier != "thorough" && off > 1 {
+			km = k - 1
+		}
 		for _, b := range c05Bases {
 			for _, f := range c05Forges(b) {
-				c05Msg.EnumK(k, func(mv []int) bool {
+				c05Msg.EnumK(km, func(mv []int) bool {
 					p := ssoFromVec(c05Msg, mv)
 					p.SPFlag, p.SPCert, p.IdPFlag = cfgP.SPFlag, cfgP.SPCert, cfgP.IdPFlag
 					p.Sign, p.Transport, p.Forge = b.Sign, b.Transport, f
